@@ -329,12 +329,13 @@ impl<'a> Adapter<'a> for Pruning {
         let inner_iter = self.inner.resolve_neighbors(Box::new(cs.into_iter()), t, e, p, ri);
         Box::new(inner_iter.zip(cands).map(move |((ctx, ns), cand)| {
             let me = me.clone(); let dest = dest.clone(); let site = site.clone();
+            let src: u32 = ctx.active_vertex::<V>().map(|v| v.0).unwrap_or(0);
             let it: VertexIterator<'a, V> = Box::new(ns.filter(move |v| {
                 let mut k = keep_static(&me.inner.g, &me.props, &me.edges, v.0, &dest, me.depth, &me.st, &site);
                 for (pn, c) in &cand {
                     if let Some(x) = me.inner.g.prop(v.0, pn) {
                         let ok = cand_contains(c, &x);
-                        if me.st.hints.borrow().len() < 400 { me.st.hints.borrow_mut().push(json!({"kind":"dynamic","site": site,"vid": crate::val::idn(&dest.vid()),"prop": pn,"cand": cand_json(c),"vertex": v.0,"value": from_fv(&x),"kept": ok})); }
+                        if me.st.hints.borrow().len() < 400 { me.st.hints.borrow_mut().push(json!({"kind":"dynamic","site": site,"vid": crate::val::idn(&dest.vid()),"prop": pn,"cand": cand_json(c),"vertex": v.0,"src": src,"value": from_fv(&x),"kept": ok})); }
                         if !ok { k = false; }
                     }
                 }
